@@ -957,7 +957,7 @@ ANIwriteann(int32       ann_id, /* IN: annotation id */
     ann_ref = AN_KEY2REF(ann_key);
 
     /* convert file_id to file rec and check for validity */
-    file_rec = HAatom_object(file_id);
+    file_rec = HAfile_object(file_id);
     if (BADFREC(file_rec))
         HGOTO_ERROR(DFE_INTERNAL, FAIL);
 
@@ -1153,7 +1153,7 @@ ANstart(int32 file_id /* IN: file to start annotation access on*/)
     HEclear();
 
     /* convert file id to file rec and check for validity */
-    file_rec = HAatom_object(file_id);
+    file_rec = HAfile_object(file_id);
     if (BADFREC(file_rec))
         HGOTO_ERROR(DFE_ARGS, FAIL);
 
